@@ -311,6 +311,8 @@ structure Walker where
   mem : Bytes
   /-- the caller's registers before CFI runs (callee-saved registers forwarded verbatim) -/
   fwd : List (Name × UInt64)
+  /-- the memory image is read big-endian (`get_memory_at_address` uses the dump's byte order) -/
+  be : Bool := false
 
 def lookupName {α} (l : List (Name × α)) (n : Name) : Option α :=
   (l.find? (fun p => p.1 = n)).map (·.2)
@@ -332,11 +334,18 @@ def leVal : Bytes → Nat
   | [] => 0
   | b :: rest => b.toNat + 256 * leVal rest
 
-/-- `get_register_at_address`: a pointer-sized little-endian read that must lie inside the image. -/
+/-- big-endian value of a byte string -/
+def beVal : Bytes → Nat
+  | [] => 0
+  | b :: rest => b.toNat * 256 ^ rest.length + beVal rest
+
+/-- `get_register_at_address`: a pointer-sized read (little-endian unless `be`) that must lie
+    inside the image. -/
 def Walker.readMem (w : Walker) (a : UInt64) : Option UInt64 :=
   if a.toNat < w.memBase then none else
   let off := a.toNat - w.memBase
-  if off + w.ptr ≤ w.mem.length then some (UInt64.ofNat (leVal ((w.mem.drop off).take w.ptr)))
+  if off + w.ptr ≤ w.mem.length then
+    some (UInt64.ofNat (if w.be then beVal ((w.mem.drop off).take w.ptr) else leVal ((w.mem.drop off).take w.ptr)))
   else none
 
 def Walker.env (w : Walker) : Env := ⟨w.getCallee, w.readMem⟩
@@ -610,7 +619,7 @@ def parseWalkArgs (base instr ptr init adds known al callee fwd mem : String) :
     | _ => none
   if !(ptr == 4 || ptr == 8) || instr > U64MAX || base > U64MAX || ia > U64MAX || isz > U32MAX
       || mb > U64MAX || adds.any (fun a => a.1 > U64MAX) then none else
-  some (⟨ia, isz, storedRules irules, adds.map fun (a, t) => (a, storedRules t)⟩, base, ⟨instr, ptr, known, al, callee, mb, mbytes, fwd⟩)
+  some (⟨ia, isz, storedRules irules, adds.map fun (a, t) => (a, storedRules t)⟩, base, ⟨instr, ptr, known, al, callee, mb, mbytes, fwd, false⟩)
 
 /-! register names of the `stack` cases as byte strings (`fp`, `lr`; sp / ip per architecture) -/
 def nFp : Name := [0x66, 0x70]
